@@ -186,8 +186,8 @@ def cid_stream(ck, srcs):
     """Tie for the cid-level inference of Model/Sorts.v (Section Cid): the hook verif:infer_sorts (/repo commit 366a622) logs
     the query and the slice of the context sort inference reads, at entry and at exit.  The model is run on the entry state; compared
     with the exit state: every emitted Sort (column ids and directions) and every Select of every CTE and of the main relation (but
-    the main relation's final ORDER BY, which alias_last_sorting re-targets: directions only), the cid_redirects of every
-    relation instance, and the id generator."""
+    the ids of the main relation's final ORDER BY as alias_last_sorting + the last redirect re-target them), the cid_redirects
+    of every relation instance, and the id generator."""
     PRE = "verif:infer_sorts "
     ans = harness("log", [{"src": s, "target": "sql.sqlite", "want": [], "msg_prefix": PRE.strip()} for s in srcs])
     exprs, meta = [], []
@@ -288,8 +288,17 @@ def cid_stream(ck, srcs):
             continue
         insts = "[%s]" % "; ".join("(%d%%nat, %d%%nat)" % (i["riid"], i["source"]) for i in en["ctx"]["relation_instances"])
         rds = "[%s]" % "; ".join("(%d%%nat, [%s])" % (i["riid"], "; ".join("(%d%%nat, %d%%nat)" % (s_, t_) for s_, t_ in i["redirects"])) for i in en["ctx"]["relation_instances"])
-        exprs.append("(let '(cs, os, o, fin) := fold_query %s %s %d%%nat [%s] [%s] in ((os, o), (map snd fin, (cs_rds cs, cs_next cs))))" % (
-            insts, rds, en["ctx"]["next_cid"], "; ".join("(%d%%nat, [%s])" % (tid, "; ".join(it)) for tid, it in ctes), "; ".join(mi)))
+        # alias_last_sorting reads the declarations as they are AFTER the CTEs were folded (the added columns have declarations
+        # by then): taken from the exit state; redirects and everything else are the model's own
+        decls = "[%s]" % "; ".join(
+            "(%d%%nat, %s)" % (dc["cid"], ("DRel %d%%nat %d%%nat" % (dc["riid"], dc["col"])) if "riid" in dc else
+                               ("DCompute %s" % ("None" if dc.get("column_ref") is None else "(Some %d%%nat)" % dc["column_ref"])))
+            for dc in sorted(ex["ctx"]["column_decls"], key=lambda x: x["cid"]))
+        main_sel = next((t["Select"] for t in reversed(q["main"]) if isinstance(t, dict) and "Select" in t), [])
+        from_riid = next((t["From"]["riid"] for t in q["main"] if isinstance(t, dict) and "From" in t), 0)
+        exprs.append("(let '(cs, os, o, fin) := fold_query %s %s %d%%nat [%s] [%s] in ((os, o), (alias_last_sorting 50 %s (cs_rds cs) [%s] %d%%nat fin, (cs_rds cs, cs_next cs))))" % (
+            insts, rds, en["ctx"]["next_cid"], "; ".join("(%d%%nat, [%s])" % (tid, "; ".join(it)) for tid, it in ctes), "; ".join(mi),
+            decls, "; ".join("%d%%nat" % c for c in main_sel), from_riid))
         meta.append((src, en, ex))
     if okc and not seen:
         ck.violation("no verif:infer_sorts line in any of %d successful compiles: the hook of infer_sorts is missing" % okc, {"kind": "cid-hook-missing"}, no_input=True)
@@ -311,8 +320,8 @@ def cid_stream(ck, srcs):
         else:
             if norm(mshape(o)) != norm(xm[:-1]):
                 problems.append("main relation")
-            if [bool(d) for d in fin] != [d for _, d in xm[-1][1]]:
-                problems.append("directions of the final ORDER BY")
+            if [(c, bool(d)) for c, d in fin] != xm[-1][1]:
+                problems.append("final ORDER BY (alias_last_sorting): model %s, implementation %s" % ([(c, bool(d)) for c, d in fin], xm[-1][1]))
         xr = {i["riid"]: sorted(map(tuple, i["redirects"])) for i in ex["ctx"]["relation_instances"]}
         mr = {r: sorted(map(tuple, rd)) for r, rd in mrds}
         if {k: v_ for k, v_ in xr.items() if v_} != {k: v_ for k, v_ in mr.items() if v_}:
